@@ -35,7 +35,7 @@ def _nontrivial(ctx, d, kinds, order, alt):
 @st.composite
 def _ders_cases(draw, tier):
     big = tier == "thorough"
-    d = draw(gen.spline(kinds=("curve", "surface"), max_p=5 if big else 4, max_extra=6 if big else 4,
+    d = draw(gen.spline(ranges=("far", "tiny"), kinds=("curve", "surface"), max_p=5 if big else 4, max_extra=6 if big else 4,
                         unclamped="maybe", affine_range="maybe", normalize="maybe", micro=True))
     pdim = len(d["degree"])
     if d["rational"] and pdim == 2 and max(d["degree"]) > 3 and not big:
@@ -52,7 +52,7 @@ def check_ders(case, ctx):
     d = case["defn"]
     order = case["order"]
     kw = {}
-    if case["span_func"] == "binary":
+    if case["span_func"] == "binary" and not build.tiny_range(d):
         kw["find_span_func"] = helpers.find_span_binsearch
     obj = build.make(d, **kw)
     if case["alt"]:
